@@ -424,8 +424,11 @@ func mismatches(s *Scenario, v verdict, ev *Event) []core.Mismatch {
 		if w == "waypoint" {
 			det += fmt.Sprintf("; first way-point that is not near the polyline in order: #%d", v.Wfail)
 		}
-		if len(ev.Out) > 0 {
-			det += fmt.Sprintf("; output sub-path %d has %d vertices: %v", len(ev.Out), len(ev.Out[len(ev.Out)-1]), truncPts(ev.Out[len(ev.Out)-1]))
+		if ci := min(boolInt(s.Pre), len(ev.Out)-1); ci >= 0 {
+			det += fmt.Sprintf("; output has %d sub-paths, sub-path %d has %d vertices: %v", len(ev.Out), ci+1, len(ev.Out[ci]), truncPts(ev.Out[ci]))
+			if s.Post && len(ev.Out) > ci+1 {
+				det += fmt.Sprintf("; following sub-path: %v", truncPts(ev.Out[len(ev.Out)-1]))
+			}
 		}
 		sig := s.Op + "-" + w + ":" + featureTag(s)
 		if w == "structure" && s.F["startend"] {
@@ -434,6 +437,13 @@ func mismatches(s *Scenario, v verdict, ev *Event) []core.Mismatch {
 		ms = append(ms, core.Mismatch{Signature: sig, Detail: det})
 	}
 	return ms
+}
+
+func boolInt(b bool) int {
+	if b {
+		return 1
+	}
+	return 0
 }
 
 func truncPts(p [][2]int) string {
